@@ -434,6 +434,67 @@ pub fn blob_block_read(
     })
 }
 
+/// A NOT NULL Float64 column (values given and returned as IEEE-754 bit patterns) written by the
+/// real column builder with the given encoding (0 plain, 1 run-length, 2 dictionary) and read back
+/// from row 0.
+pub fn f64_column_roundtrip(
+    bits: &[u64],
+    encode: u8,
+    target_block_size: usize,
+) -> Result<Vec<u64>, String> {
+    use super::ColumnIteratorImpl;
+    use crate::array::F64ArrayBuilder;
+    use crate::types::F64;
+    guarded(|| {
+        block_on(async {
+            let columns: Arc<[ColumnCatalog]> = vec![ColumnCatalog::new(
+                0,
+                ColumnDesc::new("a", DataType::Float64, false),
+            )]
+            .into();
+            let options = ColumnBuilderOptions {
+                target_block_size,
+                checksum_type: ChecksumType::Crc32,
+                encode_type: match encode {
+                    0 => EncodeType::Plain,
+                    1 => EncodeType::RunLength,
+                    _ => EncodeType::Dictionary,
+                },
+                record_first_key: false,
+            };
+            let mut b = F64ArrayBuilder::new();
+            for v in bits {
+                b.push(Some(&F64::from(f64::from_bits(*v))));
+            }
+            let mut builder = RowsetBuilder::new(columns.clone(), options);
+            builder.append([ArrayImpl::new_float64(b.finish())].into_iter().collect());
+            let backend = IOBackend::in_memory();
+            let dir = std::path::PathBuf::from("/verif-replay/0_0");
+            RowsetWriter::new(&dir, backend.clone())
+                .flush(builder.finish())
+                .await
+                .map_err(|e| e.to_string())?;
+            let rowset = DiskRowset::open(dir, columns, Cache::new(64), 0, backend)
+                .await
+                .map_err(|e| e.to_string())?;
+            let mut it = ColumnIteratorImpl::new(rowset.column(0), rowset.column_info(0), 0)
+                .await
+                .map_err(|e| e.to_string())?;
+            let mut out = vec![];
+            while let Some((_, array)) = it.next_batch(None).await.map_err(|e| e.to_string())? {
+                match &array {
+                    ArrayImpl::Float64(a) => out.extend(
+                        (a.to_vec().into_iter())
+                            .map(|v| v.map(|x| x.0.to_bits()).unwrap_or(u64::MAX)),
+                    ),
+                    _ => return Err("unexpected array type".into()),
+                }
+            }
+            Ok(out)
+        })
+    })
+}
+
 /// Fixed-width char block (`char(width)`): build from `items`, skip `skip` rows, then read batches
 /// of `batch` rows until exhausted.
 pub fn char_block_read(
